@@ -131,8 +131,31 @@ fn static_checks(lines: &[Line], cfg: &CfgView, lk: &Link, ctx: &mut Ctx, out: &
     // (iv') the same with an own, deliberately simple propagation of the constant in a7: an ecall
     // that only the numbers 10 or only the number 93 can reach (over paths that do not run through
     // such an ecall) ends the program in every execution, whatever the analyzer knows about it
-    for li in definite_exits(lines) {
+    // nodes the program entry reaches in the analyzer's own graph (through calls as well): an ecall
+    // the graph holds to be dead code is none of this clause's business (clause v covers wrongly dead code)
+    let mut reach_g = vec![false; cfg.nodes.len()];
+    {
+        let mut stack = if cfg.nodes.is_empty() { vec![] } else { vec![0usize] };
+        while let Some(k) = stack.pop() {
+            if std::mem::replace(&mut reach_g[k], true) {
+                continue;
+            }
+            stack.extend(cfg.nodes[k].nexts.iter().copied());
+            if let Some(Line::Ins(i)) = lk.node_line[k].map(|li| &lines[li]) {
+                if is_call(i) {
+                    if let Some(l) = label_operand(i) {
+                        stack.extend(cfg.nodes.iter().filter(|n| n.labels.contains(l)).map(|n| n.idx));
+                    }
+                }
+            }
+        }
+    }
+    let dead_lines: BTreeSet<usize> = (0..cfg.nodes.len()).filter(|k| !reach_g[*k]).filter_map(|k| lk.node_line[k]).collect();
+    for li in definite_exits(lines, &dead_lines) {
         if let Some(k) = lk.line_nodes.get(&li).and_then(|v| v.last().copied()) {
+            if !reach_g[k] {
+                continue;
+            }
             let a = &cfg.nodes[k];
             ctx.fact("definite_exits_checked", 1);
             if a.is_ecall && !a.nexts.is_empty() {
@@ -153,11 +176,11 @@ fn static_checks(lines: &[Line], cfg: &CfgView, lk: &Link, ctx: &mut Ctx, out: &
 }
 
 /// Model line indices of the ecalls that end the program in every execution, by a forward
-/// propagation of the set of constants a7 can hold (None = anything). Code the program entry does
-/// not reach leaves anything in a7 (values may or may not flow out of dead code), `li a7, c` and
+/// propagation of the set of constants a7 can hold (None = anything). Code on `dead_lines` (dead in
+/// the graph under test) leaves anything in a7, every branch goes both ways, `li a7, c` and
 /// `addi a7, zero, c` give a constant, every other write to a7 and every call give "anything".
 /// Exits found are cut and the propagation is repeated until no further exit appears.
-pub fn definite_exits(lines: &[Line]) -> BTreeSet<usize> {
+pub fn definite_exits(lines: &[Line], dead_lines: &BTreeSet<usize>) -> BTreeSet<usize> {
     use std::collections::BTreeMap;
     let ins: Vec<(usize, &Ins)> = lines.iter().enumerate().filter_map(|(k, l)| if let Line::Ins(i) = l { Some((k, i)) } else { None }).collect();
     let n = ins.len();
@@ -185,20 +208,11 @@ pub fn definite_exits(lines: &[Line]) -> BTreeSet<usize> {
                 "j" => target(i).into_iter().collect(),
                 "jal" | "call" if is_call(i) => fall,
                 "jal" => target(i).into_iter().collect(),
+                // both ways for every branch, also for one that can only go one way: the graph may
+                // legitimately keep both edges, and more paths only make fewer exits definite
                 m if m.starts_with('b') && label_operand(i).is_some() => {
-                    // a branch that compares a register with itself (or zero with zero) goes one way only
-                    let regs: Vec<u8> = i.ops.iter().filter_map(|o| if let Opd::R(r) = o { Some(*r) } else { None }).collect();
-                    let same = match regs.as_slice() {
-                        [a, b] => a == b,
-                        [a] => *a == 0,
-                        _ => false,
-                    };
-                    let always = same && matches!(m, "beq" | "bge" | "bgeu" | "ble" | "bleu" | "beqz" | "bgez" | "blez");
-                    let never = same && !always;
-                    let mut v = if always { vec![] } else { fall };
-                    if !never {
-                        v.extend(target(i));
-                    }
+                    let mut v = fall;
+                    v.extend(target(i));
                     v
                 }
                 _ => fall,
@@ -226,24 +240,11 @@ pub fn definite_exits(lines: &[Line]) -> BTreeSet<usize> {
                 }
             }
         }
-        // what the program entry reaches under the current exits; everything else is dead code and
-        // is taken to leave anything in a7 (no assumption about how the analyzer treats dead code)
-        let mut live = vec![false; n];
-        {
-            let mut stack = if n > 0 { vec![0usize] } else { vec![] };
-            while let Some(k) = stack.pop() {
-                if std::mem::replace(&mut live[k], true) {
-                    continue;
-                }
-                stack.extend(succ(k));
-                if is_call(ins[k].1) {
-                    stack.extend(target(ins[k].1));
-                }
-            }
-        }
         let out_of = |k: usize, v: &Option<BTreeSet<i64>>| -> Option<BTreeSet<i64>> {
             let i = ins[k].1;
-            if !live[k] {
+            // code the graph under test holds to be dead leaves anything in a7 (no assumption about
+            // whether values flow out of dead code)
+            if dead_lines.contains(&ins[k].0) {
                 return None;
             }
             let writes_a7 = crate::arch::rw(i).1 & (1 << 17) != 0;
@@ -283,7 +284,7 @@ pub fn definite_exits(lines: &[Line]) -> BTreeSet<usize> {
             }
         }
         if fresh.is_empty() {
-            return exits.iter().filter(|k| live[**k]).map(|k| ins[*k].0).collect();
+            return exits.iter().map(|k| ins[*k].0).collect();
         }
         // one at a time: the values at the other candidates may have come over the edges behind this one
         exits.insert(fresh[0]);
@@ -503,8 +504,9 @@ mod tests {
             ins("li", vec![r(17), i(10)]),
             ins("ecall", vec![]),
         ];
-        let e = definite_exits(&p);
-        assert_eq!(e.into_iter().collect::<Vec<_>>(), vec![6, 8, 10]);
+        let e = definite_exits(&p, &BTreeSet::new());
+        // (the caller drops what the graph under test holds to be dead, here the last one)
+        assert_eq!(e.into_iter().collect::<Vec<_>>(), vec![6, 8, 10, 13]);
         // a number that may be 10 or 5 is no exit; dead code says nothing
         let q = vec![
             label("main"),
@@ -516,6 +518,6 @@ mod tests {
             ins("li", vec![r(17), i(10)]),
             ins("ecall", vec![]),
         ];
-        assert_eq!(definite_exits(&q).into_iter().collect::<Vec<_>>(), vec![7]);
+        assert_eq!(definite_exits(&q, &BTreeSet::new()).into_iter().collect::<Vec<_>>(), vec![7]);
     }
 }
